@@ -40,6 +40,19 @@ pub fn check_step(c: &StepCase) -> Verdict {
         o => return fail("lifetime-before", format!("get_lifetime at counter {} of {} = {:?}, expected {}", c.counter, levels_str(&c.levels), o, total - c.counter as u128)),
     }
     let msg = gen::expand(c.counter, 20);
+    // a callback that rejects once and would accept a second offer: at most one leaf may be spent
+    {
+        let (o, calls) = libapi::sign(c.hash, &msg, &blob, Cb::RejectThenAccept, None);
+        if let Some(lastk) = calls.last() {
+            let want = if last { hss::wiped_blob(n) } else { hss::private_key_blob(&c.levels, c.counter + 1, &seed) };
+            if *lastk != want {
+                return fail("lifetime-drop after-retry", format!("after a rejected and a repeated key update in one signing call the handed-over key is {} instead of the successor {} ({} callback calls, result {})", gen::hex(lastk), gen::hex(&want), calls.len(), o.kind()));
+            }
+        }
+        if o.is_ok() && calls.len() != 1 {
+            return fail("lifetime-drop after-retry", format!("a signature was released after {} key updates in one call", calls.len()));
+        }
+    }
     let (o, calls) = libapi::sign(c.hash, &msg, &blob, Cb::Accept, None);
     if !o.is_ok() {
         return fail(sign_failure_key(c.hash, &c.levels, o.kind()), format!("sign {} at counter {} of {}: {:?}", o.kind(), c.counter, levels_str(&c.levels), o.panic_msg()));
